@@ -4,6 +4,7 @@ import CliUtils.Drv.C15
 import CliUtils.Drv.C06
 import CliUtils.Drv.C20
 import CliUtils.Drv.C17
+import CliUtils.Drv.C14
 /-
   Line-protocol driver.  stdin: one JSON object per line  {"d": domain, "i": input, "o": implementation output}
   stdout: one line per case that needs attention, then one summary line.
@@ -24,7 +25,9 @@ def handlers : List (String × Handler) := [
   ("poll", C17.handlePoll),
   ("collector", C17.handleCollector),
   ("podctl", C17.handlePodctl),
-  ("readstatus", C17.handleReadStatus)
+  ("readstatus", C17.handleReadStatus),
+  ("graph", C14.handleGraph),
+  ("depgraph", C14.handleDepgraph)
 ]
 
 structure Stats where
